@@ -278,9 +278,9 @@ def reviewTable : List (String × Review) := [
   ("x/oracle/keeper/cache/caches.go:Cache.AddCache:panic:panic(\"no other types are support\")", .guard "C11_guard_AddCache_default_unreachable"),
   ("x/oracle/keeper/cache/caches.go:cacheMsgs.commit:index:index.Index[i:]", .guard "C11_guard_commit_index_Index_i"),
   ("x/oracle/keeper/cache/caches.go:cacheParams.commit:index:index.Index[i:]", .guard "C11_guard_commit_index_Index_i_2"),
-  ("x/oracle/keeper/common/types.go:BigIntList.Median:index:b[l/2-1]", .assumed "the calculator only takes the median of a round that holds at least one price"),
+  ("x/oracle/keeper/common/types.go:BigIntList.Median:index:b[l/2-1]", .invariant "C11_site_median_never_empty"),
   ("x/oracle/keeper/common/types.go:BigIntList.Median:index:b[l/2]", .guard "C11_guard_Median_b_l_2"),
-  ("x/oracle/keeper/common/types.go:BigIntList.Median:index:b[l/2]#2", .assumed "the calculator only takes the median of a round that holds at least one price"),
+  ("x/oracle/keeper/common/types.go:BigIntList.Median:index:b[l/2]#2", .invariant "C11_site_median_never_empty"),
   ("x/oracle/keeper/common/types.go:BigIntList.Median:quo:new(big.Int).Div(new(big.Int).Add(b[l/2], b[l/2-1]), big.NewInt(2)) <= not(l%2 == 1)", .guard "C11_guard_median_divisor"),
   ("x/oracle/keeper/index_recent_msg.go:Keeper.GetIndexRecentMsg:must:k.cdc.MustUnmarshal(b, &val)", .codec),
   ("x/oracle/keeper/index_recent_msg.go:Keeper.SetIndexRecentMsg:must:k.cdc.MustMarshal(&indexRecentMsg)", .codec),
@@ -338,9 +338,9 @@ theorem or a mechanical reason (findings, candidates, by-reading assumptions) -/
 theorem C11_review_counts :
     reviewTable.length = 220 ∧
     (reviewTable.filter (·.2.isGuard)).length = 56 ∧
-    (reviewTable.filter (·.2.isInvariant)).length = 31 ∧
+    (reviewTable.filter (·.2.isInvariant)).length = 33 ∧
     (reviewTable.filter (·.2.isFinding)).length = 1 ∧
-    (reviewTable.filter (·.2.isOpen)).length = 10 := by
+    (reviewTable.filter (·.2.isOpen)).length = 8 := by
   refine ⟨by rfl, by rfl, by rfl, by rfl, by rfl⟩
 
 /-- the sites of the open findings (F-11c: the unchecked slice accesses of parseBalanceChange; F-11f: the TruncateInt64 of an operator's USD value) are on block paths -/
@@ -645,7 +645,9 @@ theorem C11_cited_theorems : citedTheorems = [
   "C11_guard_AddCache_default_unreachable",
   "C11_guard_commit_index_Index_i",
   "C11_guard_commit_index_Index_i_2",
+  "C11_site_median_never_empty",
   "C11_guard_Median_b_l_2",
+  "C11_site_median_never_empty",
   "C11_guard_median_divisor",
   "C11_guard_UpdateNSTByBalanceChange_stakerInfo_BalanceList_length_1",
   "C11_guard_parseBalanceChange_changes_byteIndex",
@@ -716,6 +718,7 @@ theorem C11_site_guards_are_proved : True := by
   have := @C11_guard_AddCache_default_unreachable
   have := @C11_guard_commit_index_Index_i
   have := @C11_guard_commit_index_Index_i_2
+  have := @C11_site_median_never_empty
   have := @C11_guard_Median_b_l_2
   have := @C11_guard_median_divisor
   have := @C11_guard_UpdateNSTByBalanceChange_stakerInfo_BalanceList_length_1
